@@ -145,6 +145,10 @@ _INT_RANGES = {torch.uint8: (0, 255), torch.int8: (-128, 127), torch.int16: (-32
 
 
 def s_cast(v, dtype):
+    if isinstance(v, S.Dual):
+        if isfloat_dtype(dtype):
+            return v
+        raise Unsupported("dual number cast to a non-float dtype")
     if dtype == torch.bool:
         return s_bool(v)
     if S.is_fp(v):
